@@ -436,6 +436,31 @@ func collisionThroughRefsCases(stream string) []*core.PCase {
 		doc := M{"p0": vals[0], "p1": vals[1], "p2": vals[2]}
 		pcs = append(pcs, baseCase(stream, schema, []any{doc}, fmt.Sprint(es)))
 	}
+	// three names that normalise to one identifier where one of the definitions is ONLY a $ref to another (it is not
+	// declared under a name of its own: its provisional reservation is given back), in every generation order
+	for _, names := range [][]string{{"Thing", "_thing", "thing"}, {"Thing", "thing", "_thing"}, {"_thing", "Thing", "thing"}, {"thing", "Thing_", "_Thing"}, {"a-b", "a_b", "a b"}, {"a b", "a-b", "a_b"}} {
+		for refOnly := 0; refOnly < 3; refOnly++ {
+			for target := 0; target < 3; target++ {
+				if target == refOnly {
+					continue
+				}
+				defs := M{}
+				props, doc := M{}, M{}
+				for i, nm := range names {
+					if i == refOnly {
+						defs[nm] = M{"$ref": "#/$defs/" + names[target]}
+						continue
+					}
+					own := fmt.Sprintf("own%d", i)
+					defs[nm] = M{"type": "object", "properties": M{own: M{"type": "integer"}}, "required": []any{own}}
+					props[fmt.Sprintf("p%d", i)] = M{"$ref": "#/$defs/" + nm}
+					doc[fmt.Sprintf("p%d", i)] = M{own: 10 + i}
+				}
+				schema := M{"type": "object", "properties": props, "$defs": defs}
+				pcs = append(pcs, baseCase(stream, schema, []any{doc}, "ref-only", strings.Join(names, " "), fmt.Sprintf("%d->%d", refOnly, target)))
+			}
+		}
+	}
 	// the colliding definitions used as allOf / anyOf branches (whatever is kept per reference must be kept per
 	// DEFINITION, not per normalised name), every subset of two or three of them, in both orders of use
 	for _, kw := range []string{"allOf", "anyOf"} {
